@@ -312,8 +312,9 @@ func runC20(c *Ctx) {
 	for i := 0; i < nch; i++ {
 		ch := &c20Chan{d: d, ix: i, group: [4]byte{239, 9, 9, byte(1 + i)}, port: 6100 + i, withheld: -1}
 		ch.n = w.Range(5, 150)
-		ch.maxSlots = w.Pick(32, 2, 4, 8)
-		ch.maxBytes = w.Pick(4096, 256, 1024)
+		// any number is a legal limit, not only the ones an allocator's size classes happen to hit exactly
+		ch.maxSlots = w.Pick(32, 2, 4, 8, w.Range(1, 60), w.Range(1, 60))
+		ch.maxBytes = w.Pick(4096, 256, 1024, 1<<16)
 		ch.buf = sonic.NewByteBuffer()
 		if w.Chance(1, 4) {
 			ch.off = sonic.NewSlotOffsetter(ch.maxBytes)
